@@ -212,6 +212,9 @@ def random_sim_desc(rng, tier, single_share=0.75, consistent_only=False, schedul
     d["table"] = tables.random_table_desc(rng, consistent_only=consistent_only, allow_built=(tier == "thorough" or rng.random() < 0.3), max_nodes=400)
     tab = tables.from_desc(d["table"])
     d["p_i"], d["p_f"] = pick_pressures(tab, float(rng.random()), ratio)
+    u = rng.random()
+    if u < 0.2:
+        d["table"] = dict(d["table"], rows="descending" if u < 0.12 else "shuffled", rows_seed=int(rng.integers(0, 10**6)))
     d["alpha_branch"] = bool(rng.random() < 0.15)
     if schedules and rng.random() < 0.4:
         d["schedule"] = {"kind": str(rng.choice(["constant", "steps-down", "random-walk"])), "seed": int(rng.integers(0, 2**31)), "n_steps": int(rng.integers(2, 5))}
@@ -245,9 +248,14 @@ def step_residuals(res, cls, time, pp, m_i, m_f, tol=1e-11, check_row0=False):
         b = np.minimum(prev, m_i)
         b0 = b.copy()
         b0[:, 0] = m_f[:-1]
-        a = np.empty_like(b)
-        for i in range(nt - 1):
-            a[i] = np.asarray(res.alpha_scaled(b0[i]), dtype=float)
+        # the scaled diffusivity of the table, looked up by the harness itself (sorted columns,
+        # clamped at the ends): what the step must have used, not what the object says it used
+        props = res.fluid.pvt_props
+        ms = np.asarray(props["m-scaled"], dtype=float)
+        al = np.asarray(props["alpha"], dtype=float)
+        o = np.argsort(ms, kind="stable")
+        a = np.interp(b0, ms[o], al[o]) / float(np.interp(m_i, ms[o], al[o]))
+        out["alpha_lookup_vs_library"] = float(np.max(np.abs(a[0] - np.asarray(res.alpha_scaled(b0[0]), dtype=float)) / a[0]))
     xinf = np.max(np.abs(new), axis=1)  # per step
     lap = np.empty_like(new)
     lap[:, 1:-1] = new[:, :-2] - 2 * new[:, 1:-1] + new[:, 2:]
